@@ -36,7 +36,9 @@ STR18 = ["", "x", "hello world", " lead", "trail ", "q\"uote", "back\\slash", "t
          "${nope}", "a,b", "'single'", "&anchor", "*alias", "!tag", "%percent", "@at", "`tick`", "|", ">", "?", " nbsp", " ls", "\x7f", "<<"]
 INTS18 = [0, 1, -1, 7, 255, 65536, 2**31 - 1, -2**31, 2**31, 2**53 - 1, -(2**53 - 1), 2**53, 123456789, 10**15]
 EDGE18 = [0, 1, -1, 3, -3, 2**31 - 1, -2**31, 2**32 + 1, 2**52 + 1, -(2**52 + 1), 2**52 + 3, 4503599627370497, 2**53 - 1, -(2**53 - 1), 2**53 - 3,
-          6755399441055745, 9007199254740989, 123456789012345, 999999999999999]
+          6755399441055745, 9007199254740989, 123456789012345, 999999999999999,
+          # beyond 2^53 but exactly representable as float64, up to the int64 limits
+          -2**63, 2**62, -(2**62), 2**53 + 2, 2**60 + 2**10, -(2**63 - 2**10), 2**63 - 2**10]
 BIGINTS18 = [2**53 + 1, 2**62, 2**63 - 1, -2**63, 10**18 + 1]
 FLOATS18 = [0.5, -0.25, 1.5, 3.0, 1e3, 1e-7, 123.456, 1e21, 1e22, 5e-324, 1.7976931348623157e308, -0.0, 0.1, 2.5e-5, 4.0]
 
@@ -180,12 +182,39 @@ def gen(rng, tier):
         if not expressible(doc):
             continue
         # with a path separator the same setting may be defined twice (k.d next to k: {d: ...}): still one document, any outcome must agree
-        exact = not has(doc, lambda d: isinstance(d, dict) and "i" in d and abs(int(d["i"])) > 2**53)
+        # by-value comparison across front-ends wherever float64 holds every integer of the document exactly
+        exact = not has(doc, lambda d: isinstance(d, dict) and "i" in d and int(float(int(d["i"]))) != int(d["i"]))
         c = {"k": "frontends", "doc": doc, "text": render(doc), "opts": opts, "ty": ty, "fileName": rng.pick(["conf", "app config", "ünï"]),
              "exact": exact, "_tag": "frontends/" + ("typed" if typed else "generic"),
              "_nt": bool(stats & {"int", "float", "bigint"}) or typed,
              "_sig": "%s|%s|%s|%s" % ("+".join(sorted(stats)), "+".join(o["o"] for o in opts), shape_of(doc), i % 7)}
         yield c
+    yield from gen_dotted_prefix(rng.fork("dotted-prefix"), n // 8)
+
+
+def gen_dotted_prefix(rng, n):
+    """objects that exist only as the prefix of dotted names (created by the path code, not by a decoder), and a typed
+    failure located on such an object: it still names the file"""
+    for i in range(n):
+        k1, k2, k3 = rng.pick(["a", "b", "srv"]), rng.pick(["x", "y"]), rng.pick(["p", "q"])
+        shape = rng.below(3)
+        if shape == 0:      # an object where the target wants a number
+            ty = TG.T("struct", f=[{"n": "A", "tag": k1, "v": "", "ty": TG.T(rng.pick(["int", "string", "bool", "float64"]))}])
+            doc = M([(k1 + "." + k2, I(1))] + ([(k1 + "." + k3, S("t"))] if rng.chance(0.5) else []))
+            want = k1
+        elif shape == 1:    # a required setting missing from the prefix object
+            inner = TG.T("struct", f=[{"n": "X", "tag": k2, "v": "", "ty": TG.T("int")},
+                                      {"n": "D", "tag": "d", "v": rng.pick(["required", "nonzero"]), "ty": TG.T(rng.pick(["string", "int"]))}])
+            ty = TG.T("struct", f=[{"n": "A", "tag": k1, "v": "", "ty": inner}])
+            doc = M([(k1 + "." + k2, I(3))])
+            want = k1 + ".d"
+        else:               # two levels of prefix objects, the fault on the inner one
+            inner = TG.T("struct", f=[{"n": "X", "tag": k2, "v": "", "ty": TG.T("int")}])
+            ty = TG.T("struct", f=[{"n": "A", "tag": k1, "v": "", "ty": inner}])
+            doc = M([(k1 + "." + k2 + "." + k3, I(3))])
+            want = k1 + "." + k2
+        yield {"k": "frontends", "doc": doc, "text": render(doc), "opts": [opt("PathSep", ".")], "ty": ty, "fileName": rng.pick(["conf", "app config"]),
+               "exact": True, "_tag": "frontends/dotted-prefix", "_nt": True, "_sig": "dotted-prefix|%d|%s|%d" % (shape, want, i % 5)}
 
 
 def numval(d):
@@ -235,6 +264,8 @@ def oracle(case, impl, model):
     if cr:
         return (False, "a loader or Unpack crashed: " + cr)
     names = ["yaml", "json", "hjson"]
+    if impl.get("optsChanged"):
+        return (False, "a loader modified the option list it was called with (the later calls ran with other options)")
     for l in names:
         r = impl[l]
         if not r.get("missingFileErr"):
